@@ -530,8 +530,8 @@ package avro
 //@ ghost rend(c ptr, b bytes, i int, k int) int
 //@ axiom rend_unfold(c ptr, b bytes, i int, k int): rend(c, b, i, 0) == i && (0 <= k && k < len(c.fields) ==> rend(c, b, i, k+1) == cend(c.fields[k].codec, b, rend(c, b, i, k)))
 
-//@ spec fieldOK(rc ptr, k int) bool = rc.fields[k].codec != nil && wfc(rc.fields[k].codec) && 0 <= dsz(rc.fields[k].codec) && dsz(rc.fields[k].codec) < 1<<40 \
-//@      && (rc.fields[k].offset != MaxUint64 ==> typed(rc.fields[k].codec) && rc.fields[k].offset < 1<<40 && int(rc.fields[k].offset) + dsz(rc.fields[k].codec) <= recsz(rc) && dsz(rc.fields[k].codec) > 0)
+//@ spec fieldOK(rc ptr, k int) bool = rc.fields[k].codec != nil && wfc(rc.fields[k].codec) \
+//@      && (rc.fields[k].offset != MaxUint64 ==> typed(rc.fields[k].codec) && 0 <= dsz(rc.fields[k].codec) && dsz(rc.fields[k].codec) < 1<<40 && rc.fields[k].offset < 1<<40 && int(rc.fields[k].offset) + dsz(rc.fields[k].codec) <= recsz(rc))
 //@ spec present(rc ptr, k int) bool = rc.fields[k].offset != MaxUint64
 //@ spec disjointFields(rc ptr, j int, k int) bool = int(rc.fields[j].offset) + dsz(rc.fields[j].codec) <= int(rc.fields[k].offset) || int(rc.fields[k].offset) + dsz(rc.fields[k].codec) <= int(rc.fields[j].offset)
 //@ type *recordCodec : omitv(p) = false ; typed = this.rtype != nil && data(this.rtype) != nil && recsz(this) == rtypesz(data(this.rtype)) ; dsz = recsz(this) ; wfc = this != nil && 0 <= recsz(this) && recsz(this) < 1<<40 && (forall k int :: 0 <= k && k < len(this.fields) ==> fieldOK(this, k)) \
@@ -1268,8 +1268,11 @@ package avro
 //@ spec jsonTagName(sf ptr) bytes = sub(tagget(sf.Tag, "json"), 0, cutidx(tagget(sf.Tag, "json"), 44))
 //@ spec fieldExcluded(sf ptr) bool = len(sf.PkgPath) != 0 || streq(tagget(sf.Tag, "bq"), "-") || streq(jsonTagName(sf), "-")
 //@ spec fieldNameKey(sf ptr) uint64 = fieldExcluded(sf) ? strkey("-") : (len(jsonTagName(sf)) == 0 ? strkey(sf.Name) : strkey(jsonTagName(sf)))
+//   nameForField yields the string "-" exactly for these fields
+//@ spec fieldDash(sf ptr) bool = fieldExcluded(sf) || (len(jsonTagName(sf)) == 0 && streq(sf.Name, "-"))
 //@ func nameForField
 //@   props C05, C04, C15, C06
+//@   ensures [C15,C04] streq(res, "-") == fieldDash(sf)
 //@   ensures [C15,C04] fieldExcluded(sf) ==> streq(res, "-")
 //@   ensures [C15,C04] !fieldExcluded(sf) && len(jsonTagName(sf)) == 0 ==> samebytes(res, sf.Name)
 //@   ensures [C15,C04] !fieldExcluded(sf) && len(jsonTagName(sf)) != 0 ==> samebytes(res, jsonTagName(sf))
@@ -1294,17 +1297,53 @@ package avro
 //@   loop 1 uses cutidx_def(opts, 44)
 //@   loop 1 decreases len(opts)
 
-// trusted (reflect.StructField is outside the subset; a bounded stand-in runs on the real code).  Scope of the contract:
-// record schemas whose field names are pairwise distinct.  With a repeated name both schema fields get the offset of the
-// same struct field, so disjointFields (part of wfc) does not hold for them.
+// ---------------------------------------------------------------- build.go: buildRecordCodec (C05, C04, C03, C20, C06)
+// Scope: record schemas whose field names are pairwise distinct (hypothesis distinctNames of the postcondition).  With a repeated name both
+// schema fields get the offset of the same struct field, so disjointFields (part of wfc) does not hold for them.
+//
+// fieldFact: the map entry under key k is the reflect.StructField of a field of the struct type d (index rfidx(d, its
+// Go name)), and k is the key of that field's JSON name (rfkey(d, index), defined as fieldNameKey of reflect's Field(index)).
+// Different keys therefore hold different fields, and different fields of a struct do not overlap (axiom struct_layout).
+//@ spec fix(d ptr, v ptr) int = rfidx(d, strkey(v.Name))
+//@ spec fieldFact(d ptr, v ptr, k uint64) bool = 0 <= fix(d, v) && fix(d, v) < rnumfield(d) && v.Offset == rfoff(d, fix(d, v)) \
+//@      && v.Type != nil && data(v.Type) != nil && data(v.Type) == rftype(d, fix(d, v)) && k == rfkey(d, fix(d, v))
+//@ spec schemaKey(schema ptr, k int) uint64 = strkey(schema.Object.Fields[k].Name)
+//@ spec distinctNames(schema ptr) bool = forall j int :: forall k int :: 0 <= j && j < k && k < len(schema.Object.Fields) ==> schemaKey(schema, j) != schemaKey(schema, k)
+//   the codec of schema field k, when its name matches a struct field, sits at that field's offset and fits its type
+//@ spec fieldTie(rc ptr, schema ptr, ntf ptr, k int) bool = present(rc, k) ==> maphask(ntf, schemaKey(schema, k)) \
+//@      && rc.fields[k].offset == mapgetk(ntf, schemaKey(schema, k)).Offset && dsz(rc.fields[k].codec) <= rtypesz(data(mapgetk(ntf, schemaKey(schema, k)).Type))
+//@ axiom recsz_def(c ptr): (c.rtype != nil ==> recsz(c) == rtypesz(data(c.rtype))) && (c.rtype == nil ==> recsz(c) == 0)
 //@ func buildRecordCodec
-//@   props C12
+//@   props C12, C03, C04
+//@   let d := data(typ)
 //@   requires typ != nil ==> data(typ) != nil
-//@   ensures [C05,C13,C20,C06] built(res, err, typ)
+//     proved for record schemas with pairwise distinct field names; for the others (illegal Avro that the parser accepts)
+//     the same statement is the residual assumption (scope restriction, bounded stand-in in /verif/bounded)
+//@   ensures [C05,C13,C20,C06] distinctNames(schema) ==> built(res, err, typ)
+//@   ensures [assume] built(res, err, typ)
+//@   ensures [C05] (typ != nil && rkind(data(typ)) != 25) ==> err != nil
+//@   uses kind_sizes(data(typ))
 //@   requires [C12] regFree()
 //@   ensures [C12] regFree()
 //@   modifies heap cell:github.com/philpearl/avro.Codec.tag, heap cell:github.com/philpearl/avro.Codec.data, ghost lock.rheld
-//@   trusted
+//@   loop 1 invariant 0 <= i && i <= rnumfield(d) && ntf != nil && typ != nil && rkind(d) == 25
+//@   loop 1 invariant forall k uint64 :: maphask(ntf, k) ==> fieldFact(d, mapgetk(ntf, k), k)
+//@   loop 1 invariant mapframe(ntf)
+//@   loop 1 invariant [C12] regFree()
+//@   loop 1 decreases rnumfield(d) - i
+//@   loop 2 invariant -1 <= rangeindex && rangeindex < len(schema.Object.Fields) && (len(schema.Object.Fields) == 0 ==> rangeindex == -1)
+//@   loop 2 invariant rc.rtype == typ && len(rc.fields) == rangeindex + 1 && (typ == nil ==> ntf == nil)
+//@   loop 2 invariant forall k uint64 :: maphask(ntf, k) ==> fieldFact(d, mapgetk(ntf, k), k)
+//@   loop 2 invariant forall k int :: 0 <= k && k <= rangeindex ==> fieldOK(addr(rc), k) && fieldTie(addr(rc), schema, ntf, k)
+//@   loop 2 invariant distinctNames(schema) ==> forall j int, k int :: 0 <= j && j < k && k <= rangeindex && present(addr(rc), j) && present(addr(rc), k) ==> disjointFields(addr(rc), j, k)
+//@   loop 2 invariant [C12] regFree()
+//     the backing array of rc.fields is memory of this activation; record-field cells that existed at entry are untouched
+//@   loop 2 invariant freshrange(rc.fields.ptr, cap(rc.fields) * 40) && 0 <= cap(rc.fields) && cap(rc.fields) < 1<<40 && heapframe("recordCodecField")
+//@   loop 2 uses recsz_def(addr(rc))
+//@   loop 2 uses struct_layout_all(d)
+//@   uses struct_layout_all(d)
+//@   after buildCodec#1 apply kind_sizes(data(fieldType))
+//@   loop 2 decreases len(schema.Object.Fields) - rangeindex
 
 //@ func (*MapCodec).Read
 //@   implements Codec.Read
